@@ -1,4 +1,5 @@
 import MidnightZK.Model.ModArith
+import MidnightZK.Model.C06.Edwards
 /-!
 # C06 — executable model of the foreign Weierstrass chip (`y² = x³ + b`, `a = 0`)
 `circuits/src/ecc/foreign/ecc_chip.rs`. Field elements are `Nat`s below `p`; a point carries the
@@ -36,7 +37,7 @@ variable (E : WCurve)
 def fadd (a b : Nat) : Nat := addMod a b E.p
 def fsub (a b : Nat) : Nat := subMod a b E.p
 def fmul (a b : Nat) : Nat := mulMod a b E.p
-def finv (a : Nat) : Nat := invMod a E.p
+def finv (a : Nat) : Nat := invModE a E.p
 
 /-- The identity as `assign_point_unchecked` writes it: flag set, coordinates `(0, 0)`. -/
 def id (_E : WCurve) : WPt := ⟨true, 0, 0⟩
